@@ -73,6 +73,12 @@ M = [
     ("c14_terminate_assert", "C14 C12", "broker/backend.go", "\tsess, _ := client.Session().(*memorySession)\n\n\t// release session if available", "\tsess := client.Session().(*memorySession)\n\n\t// release session if available"),
     ("c14_terminate_only_clean", "C14", "broker/client.go", "\tif atomic.LoadUint32(&c.state) >= clientConnected {\n\t\terr := c.backend.Terminate(c)", "\tif atomic.LoadUint32(&c.state) > clientConnected {\n\t\terr := c.backend.Terminate(c)"),
     ("c14_closed_only_connected", "C14", "broker/client.go", "\t\t// close channel\n\t\tclose(c.closed)", "\t\t// close channel\n\t\tif atomic.LoadUint32(&c.state) >= clientConnected {\n\t\t\tclose(c.closed)\n\t\t}"),
+    # ---- C15
+    ("c15_store_map_order", "C15", "session/packet_store.go", "\t\treturn s.order[a] < s.order[b]\n", "\t\treturn false && s.order[a] < s.order[b]\n"),
+    ("c15_two_dequeuers", "C15", "broker/client.go", "\tc.tomb.Go(c.dequeuer)\n", "\tc.tomb.Go(c.dequeuer)\n\tc.tomb.Go(c.dequeuer)\n"),
+    ("c15_callback_async", "C15", "client/client.go", "\tif publish.Message.QOS <= 1 || c.earlyCallback {\n\t\tif c.Callback != nil {\n\t\t\terr := c.Callback(&publish.Message, nil)", "\tif publish.Message.QOS <= 1 || c.earlyCallback {\n\t\tif c.Callback != nil && publish.Message.QOS == 0 {\n\t\t\tgo c.Callback(&publish.Message, nil)\n\t\t} else if c.Callback != nil {\n\t\t\terr := c.Callback(&publish.Message, nil)"),
+    ("c15_overwrite_keeps_slot", "C15", "session/packet_store.go", "\t\ts.counter++\n\t\ts.order[id] = s.counter\n", "\t\tif _, ok := s.order[id]; !ok {\n\t\t\ts.counter++\n\t\t\ts.order[id] = s.counter\n\t\t}\n"),
+    ("c15_service_publish_async", "C15", "client/service.go", "\t\t\t\tf2, err := client.PublishMessage(cmd.message)\n", "\t\t\t\tif cmd.message.QOS == 0 {\n\t\t\t\t\tgo client.PublishMessage(cmd.message)\n\t\t\t\t\tcmd.future.Complete(nil)\n\t\t\t\t\tcontinue\n\t\t\t\t}\n\t\t\t\tf2, err := client.PublishMessage(cmd.message)\n"),
     # ---- C20
     ("c20_suback_reversed", "C20", "broker/client.go", "\t\tsuback.ReturnCodes[i] = subscription.QOS", "\t\tsuback.ReturnCodes[len(pkt.Subscriptions)-1-i] = subscription.QOS"),
     ("c20_ignore_unexpected", "C20 C14", "broker/client.go", "\tdefault:\n\t\terr = c.die(ClientError, ErrUnexpectedPacket)\n\t}\n\n\t// return eventual error", "\tdefault:\n\t}\n\n\t// return eventual error"),
